@@ -7,7 +7,8 @@ From BS Require Import Model.Base Model.Regex Model.Num Model.ExprParser Model.S
   Gen.Unicode Proofs.ScriptFacts Proofs.C06 Proofs.C10 Proofs.C10ws Proofs.C10wsExpr Proofs.C10wsIndent
   Proofs.ExprFuel Proofs.C10wsFull Proofs.RegexShiftG Proofs.C10wsIndent2 Proofs.C10wsReturn
   Proofs.C10tokLex Proofs.C10tokSpaced Proofs.RegexTrail Proofs.C10tokTrail Proofs.RegexTrail2
-  Proofs.RegexTrail3 Proofs.C10stmtTrail Proofs.C10parseNoeq Proofs.C10classifyTrail Proofs.C10stmtGaps Proofs.C10stmtGaps2 Proofs.C10stmtGaps3.
+  Proofs.RegexTrail3 Proofs.C10stmtTrail Proofs.C10parseNoeq Proofs.C10classifyTrail Proofs.C10stmtGaps Proofs.C10stmtGaps2 Proofs.C10stmtGaps3
+  Proofs.C10stmtGaps4 Proofs.C10stmtGaps5 Proofs.C10stmtGaps6 Proofs.C02str Proofs.C10stmtGaps7 Proofs.C10stmtGaps8.
 
 (* ---- LF versus CRLF: both texts have the same lines ---- *)
 Theorem C10_crlf : forall lines, lines <> [] -> Forall no_lf lines -> Forall (fun l => ends_cr l = false) lines ->
@@ -349,8 +350,10 @@ Qed.
 
 (* ---- INNER gaps of a statement line (round 6, Proofs/C10stmtGaps.v, C10stmtGaps2.v, C10stmtGaps3.v): the white runs at the
    places where the statement regex has `\s*` / `\s+`.  PARTIAL: the kinds assignment, if, elif, while, return <expr>, jump,
-   jumpif, include <url> (plus, from before, `else :` C10_ws_else_gap and the keyword-only lines).  NOT covered: function begin,
-   for, label, include 'url' (oracle only).  For these eight kinds the classification is computed from the PIECES of the line, for ALL white runs:
+   jumpif, include <url> (plus, from before, `else :` C10_ws_else_gap and the keyword-only lines), and — round 7, below:
+   C10_ws_label_pieces, C10_ws_for_pieces, C10_ws_for_index_pieces, relation stmt_spaced3 — label and for, and
+   C10_ws_include_quoted_pieces — include 'url', C10_ws_fn_begin_pieces — function begin: every statement kind now has
+   a pieces theorem (the bare expression statement is the expression-token theorem).  For the first eight kinds the classification is computed from the PIECES of the line, for ALL white runs:
      w1 name w2 = T        ->  KAssign name e           w1 if w2 T : w4            ->  KIf e
      w1 elif w2 T : w4     ->  KElif (ROk e)            w1 while w2 T : w4         ->  KWhile e
      w1 return w2 T        ->  KReturn (Some e)         w1 jump w2 name w4         ->  KJump name None
@@ -414,6 +417,141 @@ Theorem C10_ws_include_system_pieces : forall n w1 w2 url w4, white w1 -> white 
 Proof. exact classify_include_system_shape. Qed.
 Print Assumptions C10_ws_include_system_pieces.
 
+(* ---- round 7 (Proofs/C10stmtGaps4.v, C10stmtGaps5.v, C10stmtGaps6.v): the INNER gaps of label and for.
+     w1 name w2 : w3                               ->  KLabel name        (name not one of  if elif else while)
+     w1 for w2 v w5 in w6 T : w8                   ->  KFor v [] e
+     w1 for w2 v w3 , w4 i w5 in w6 T : w8         ->  KFor v i e
+   (all w white runs, ANY white characters including LF; w2 w5 w6 non-empty: the regex has `\s+` there; name v i
+   identifiers; T LF-free, starting with a non-space character, parse_expression T = EOk e; the run in front of the colon
+   belongs to T).
+   The side condition of the label is exactly what classify's ORDER requires (label_keywords = [if; elif; else; while]):
+   `else :` is KElse for every run; `if  :` / `elif  :` / `while  :` are an if / elif / while with a white expression text as
+   soon as the run has a second character that is not LF (with at most one character they are labels: C10_ex_ws_label_keywords).
+   EVERY other identifier is a label — also  endif endwhile endfor endfunction break continue for function jump return
+   include  (`endif :` is a label; the six keyword-only regexes never match a line with a colon: a match of `^\s*KW\s*$`
+   reads the whole line and none of its atoms reads a colon).
+   for: the optional group `(?:\s*,\s*(ID))?` — without an index its body fails (on the `i` of `in`) and the engine goes on
+   without it; with an index the body and the rest succeed, so the engine never falls back; the index group is unset and
+   the model's gtext gives [] (m.group('index') is None in Python; KFor v [] e is the model's encoding).
+   stmt_spaced3 extends stmt_spaced2 by these three shapes. ---- *)
+Theorem C10_ws_label_pieces : forall n w1 name w2 w3, white w1 -> white w2 -> white w3 -> ident name = true ->
+  ~ In name label_keywords -> Lower.classify n (w1 ++ name ++ w2 ++ U ":" ++ w3) = ROk (KLabel name).
+Proof. exact classify_label_shape. Qed.
+Print Assumptions C10_ws_label_pieces.
+
+Theorem C10_ws_for_pieces : forall n w1 w2 v w5 w6 T w8 e, white w1 -> white w2 -> w2 <> [] -> ident v = true ->
+  white w5 -> w5 <> [] -> white w6 -> w6 <> [] -> nolf T -> hd_ok is_sp T -> white w8 -> parse_expression T = EOk e ->
+  Lower.classify n (w1 ++ U "for" ++ w2 ++ v ++ w5 ++ U "in" ++ w6 ++ T ++ U ":" ++ w8) = ROk (KFor v [] e).
+Proof. exact classify_for_shape. Qed.
+Print Assumptions C10_ws_for_pieces.
+
+Theorem C10_ws_for_index_pieces : forall n w1 w2 v w5 w6 T w8 e, white w1 -> white w2 -> w2 <> [] -> ident v = true ->
+  white w5 -> w5 <> [] -> white w6 -> w6 <> [] -> nolf T -> hd_ok is_sp T -> white w8 -> parse_expression T = EOk e ->
+  forall w3 w4 i, white w3 -> white w4 -> ident i = true ->
+  Lower.classify n (w1 ++ U "for" ++ w2 ++ v ++ w3 ++ U "," ++ w4 ++ i ++ w5 ++ U "in" ++ w6 ++ T ++ U ":" ++ w8) = ROk (KFor v i e).
+Proof. exact classify_for_index_shape. Qed.
+Print Assumptions C10_ws_for_index_pieces.
+
+Theorem C10_ws_statement_gaps3_partial : forall n k l1 l2, stmt_spaced3 k l1 l2 ->
+  Lower.classify n l1 = ROk k /\ Lower.classify n l2 = ROk k.
+Proof. exact stmt_spaced3_classify. Qed.
+Print Assumptions C10_ws_statement_gaps3_partial.
+
+Theorem C10_ws_statement_gaps3_symmetric : forall k l1 l2, stmt_spaced3 k l1 l2 -> stmt_spaced3 k l2 l1.
+Proof. exact stmt_spaced3_sym. Qed.
+Print Assumptions C10_ws_statement_gaps3_symmetric.
+
+(* a line with a colon is none of the six keyword-only statements, whatever else it contains *)
+Theorem C10_colon_line_is_no_keyword_statement : forall pre post,
+  rxm Gen.Regexes.R_SCRIPT_FUNCTION_END (pre ++ U ":" ++ post) = MNo /\ rxm Gen.Regexes.R_SCRIPT_IF_END (pre ++ U ":" ++ post) = MNo /\
+  rxm Gen.Regexes.R_SCRIPT_WHILE_END (pre ++ U ":" ++ post) = MNo /\ rxm Gen.Regexes.R_SCRIPT_FOR_END (pre ++ U ":" ++ post) = MNo /\
+  rxm Gen.Regexes.R_SCRIPT_BREAK (pre ++ U ":" ++ post) = MNo /\ rxm Gen.Regexes.R_SCRIPT_CONTINUE (pre ++ U ":" ++ post) = MNo.
+Proof. exact kwonly_colon. Qed.
+Print Assumptions C10_colon_line_is_no_keyword_statement.
+
+(* non-vacuity: tight and loose layouts are related and classify computes the same kind on both; the label side condition
+   is satisfiable and sharp *)
+Example C10_ex_ws_statement_gaps3 :
+  exists e, parse_expression (U "a<1") = EOk e /\
+    stmt_spaced3 (KLabel (U "top")) (U "top:") (U " top\000009 :  ") /\
+    stmt_spaced3 (KFor (U "v") [] e) (U "for v in a<1:") (U "  for \000009v  in  a <  1 : ") /\
+    stmt_spaced3 (KFor (U "v") (U "i1") e) (U "for v,i1 in a<1:") (U "for  v , \000009i1  in \000009a <  1 :  ").
+Proof. exact stmt_spaced3_examples. Qed.
+
+Example C10_ex_ws_statement_gaps3_computed :
+  Lower.classify 2 (U "top:") = ROk (KLabel (U "top")) /\ Lower.classify 2 (U " top\000009 :  ") = ROk (KLabel (U "top")) /\
+  Lower.classify 2 (U "top\00000a:\00000a") = ROk (KLabel (U "top")) /\
+  Lower.classify 2 (U "for v in a<1:") = Lower.classify 2 (U "  for \000009v  in  a <  1 : ") /\
+  (exists e, Lower.classify 2 (U "for v,i1 in a<1:") = ROk (KFor (U "v") (U "i1") e) /\
+             Lower.classify 2 (U "for  v , \000009i1  in \000009a <  1 :  ") = ROk (KFor (U "v") (U "i1") e)) /\
+  (exists e, Lower.classify 2 (U "for v in a<1:") = ROk (KFor (U "v") [] e)) /\
+  (* white space inside a piece, or a missing `\s+`, is outside the relation: *)
+  Lower.classify 2 (U "for v in a<1:") <> Lower.classify 2 (U "for v ina<1:") /\
+  Lower.classify 2 (U "top:") <> Lower.classify 2 (U "to p:").
+Proof.
+  split; [vm_compute; reflexivity|]. split; [vm_compute; reflexivity|]. split; [vm_compute; reflexivity|].
+  split; [vm_compute; reflexivity|]. split; [eexists; split; vm_compute; reflexivity|]. split; [eexists; vm_compute; reflexivity|].
+  split; vm_compute; discriminate.
+Qed.
+
+Example C10_ex_ws_label_keywords :
+  Lower.classify 1 (U "if :") = ROk (KLabel (U "if")) /\ Lower.classify 1 (U "while:") = ROk (KLabel (U "while")) /\
+  Lower.classify 1 (U "elif : ") = ROk (KLabel (U "elif")) /\
+  Lower.classify 1 (U "else :") = ROk KElse /\ Lower.classify 1 (U "endif :") = ROk (KLabel (U "endif")) /\
+  Lower.classify 1 (U "for :") = ROk (KLabel (U "for")) /\ Lower.classify 1 (U "function :") = ROk (KLabel (U "function")) /\
+  (exists e, Lower.classify 1 (U "if  :") = RErr e).
+Proof. exact label_kw_examples. Qed.
+
+(* ---- round 7 (Proofs/C10stmtGaps7.v): the quoted include  w1 include w2 'body' w4  ->  KInclude (un-escaped body) false,
+   for all white runs (w2 non-empty) and every body whose quotes are all escaped (quotes_escaped: the greedy reading
+   `\'` | [^'] of the body never meets a bare quote).  The group is a backtracking star over an alternation: when the body
+   ends with a backslash (`include 'a\'`) the greedy reading first takes that backslash WITH the closing quote as the pair
+   `\'`, runs to the end of the line, fails, and only the second alternative (the backslash as an ordinary character) lets
+   the tail `'\s*$` succeed at the closing quote — group 2 is the body in both cases.  The un-escape pass is the direct
+   function unescape_direct 39 of Proofs/C02str.v (C02_string_unescape). ---- *)
+Theorem C10_ws_include_quoted_pieces : forall n w1 w2 body w4, white w1 -> white w2 -> w2 <> [] -> white w4 ->
+  quotes_escaped body = true ->
+  Lower.classify n (w1 ++ U "include" ++ w2 ++ U "'" ++ body ++ U "'" ++ w4) = ROk (KInclude (unescape_direct 39 body) false).
+Proof. exact classify_include_quoted_direct. Qed.
+Print Assumptions C10_ws_include_quoted_pieces.
+
+Example C10_ex_ws_include_quoted :
+  quotes_escaped (U "a b.bare") = true /\ quotes_escaped (U "it\00005c's") = true /\ quotes_escaped (U "a\00005c") = true /\
+  quotes_escaped (U "it's") = false /\
+  unesc Gen.Regexes.R_EXPR_STRING_ESCAPE (U "it\00005c's") = ROk (U "it's") /\ unesc Gen.Regexes.R_EXPR_STRING_ESCAPE (U "a\00005c") = ROk (U "a\00005c") /\
+  Lower.classify 2 (U "include 'it\00005c's'") = ROk (KInclude (U "it's") false) /\
+  Lower.classify 2 (U "  include \000009 'it\00005c's'  ") = ROk (KInclude (U "it's") false) /\
+  Lower.classify 2 (U "include 'a\00005c'") = ROk (KInclude (U "a\00005c") false) /\
+  Lower.classify 2 (U " include  'a\00005c' ") = ROk (KInclude (U "a\00005c") false).
+Proof. exact include_quoted_examples. Qed.
+
+(* ---- round 7 (Proofs/C10stmtGaps8.v): function begin.  The line is built from its pieces
+     [w0 async] w1 function w2 name w3 ( w4 [a1 (u , v a_i)*] [w5 ...] w6 ) w7 : w8
+   astext asy = w0 async (asy = Some w0) or nothing; atext args = a1 followed by  u , v a_i  for every further argument
+   (args = Some (a1, [(u, v, a_i); ...])) or nothing; dtext dots = w5 ... (dots = Some w5) or nothing;
+   CL w6 w7 w8 = w6 ) w7 : w8.  ALL runs white (w2 non-empty), name a1 a_i identifiers; the run after the parenthesis is
+   maximal (hd_ok is_sp: without arguments w5, and without dots also w6, belong to w4).  The result has the name, async /
+   `...` flags, and as argument list the model's split of the argument text atext args at `\s*,\s*` (fn_args: re_split
+   on the captured text; the split itself is not read directly here: C10_ex_ws_fn_begin computes it on the example), or
+   ROk None when there is no argument group.  Engine: two optional groups (RegexEval.ev_opt), a star over the group
+   `(?:\s*,\s*ID)*` read by induction on the list of further arguments. ---- *)
+Theorem C10_ws_fn_begin_pieces : forall n asy w1 w2 name w3 w4 args dots w6 w7 w8,
+  awhite asy -> white w1 -> white w2 -> w2 <> [] -> ident name = true -> white w3 -> white w4 -> aok args -> dwhite dots ->
+  white w6 -> white w7 -> white w8 -> hd_ok is_sp (atext args ++ dtext dots ++ CL w6 w7 w8) ->
+  Lower.classify n (astext asy ++ w1 ++ U "function" ++ w2 ++ name ++ w3 ++ U "(" ++ w4 ++ atext args ++ dtext dots ++ CL w6 w7 w8)
+  = ROk (KFnBegin name (fn_args args) (is_some asy) (is_some dots)).
+Proof. exact classify_fn_begin_shape. Qed.
+Print Assumptions C10_ws_fn_begin_pieces.
+
+Example C10_ex_ws_fn_begin :
+  Lower.classify 2 (U "  async \000009function  f1 ( a ,b1 \000009 , c  ... ) :  ")
+    = ROk (KFnBegin (U "f1") (fn_args (Some (U "a", [(U " ", [], U "b1"); (U " \000009 ", U " ", U "c")]))) true true) /\
+  fn_args (Some (U "a", [(U " ", [], U "b1"); (U " \000009 ", U " ", U "c")])) = ROk (Some [U "a"; U "b1"; U "c"]) /\
+  Lower.classify 2 (U "async function f1(a,b1,c...):") = ROk (KFnBegin (U "f1") (ROk (Some [U "a"; U "b1"; U "c"])) true true) /\
+  Lower.classify 2 (U "function g( ) :") = ROk (KFnBegin (U "g") (ROk None) false false) /\
+  Lower.classify 2 (U "function g(  ...):") = ROk (KFnBegin (U "g") (ROk None) false true).
+Proof. exact fn_begin_examples. Qed.
+
 Theorem C10_expression_never_starts_eq : forall t e, parse_expression (U "=" ++ t) <> EOk e.
 Proof. exact parse_hd_noeq. Qed.
 Print Assumptions C10_expression_never_starts_eq.
@@ -467,15 +605,16 @@ Qed.
      (C10_ws_expression_trailing, C10_ws_token_regex_trailing);
    * round 6: the INNER gaps of the statement regexes (`\s*` / `\s+` between keyword, names, `=`, parentheses, colon) for
      assignment, if, elif, while, return <expr>, jump, jumpif: C10_ws_statement_gaps_partial (relation stmt_spaced2) and the
-     per-kind C10_ws_*_pieces; include <url>: C10_ws_include_system_pieces; from before: the keyword-only statements and the bare `return` with any indentation and
+     per-kind C10_ws_*_pieces; include <url>: C10_ws_include_system_pieces; round 7: label (`name :`, name not one of
+     if elif else while) and for (`for v in e :`, `for v , i in e :`): C10_ws_label_pieces, C10_ws_for_pieces,
+     C10_ws_for_index_pieces, C10_ws_statement_gaps3_partial (relation stmt_spaced3); include 'url' (every quote of the url
+     escaped): C10_ws_include_quoted_pieces; function begin: C10_ws_fn_begin_pieces; from before: the keyword-only statements and the bare `return` with any indentation and
      trailing whitespace (C10_ws_keyword_lines, C10_ws_return_bare) and `else :` (C10_ws_else_gap).
    NOT proved (oracle only):
-   * the INNER gaps of function begin (`async`, `function`, name, `(`, the argument list with its commas, `...`, `)`, `:`),
-     for (`for v , i in e :`), label (`name :`), include '...' (quoted form): their indentation and trailing
-     run ARE covered (C10_ws_padding), the gaps between their pieces are not.  What is missing is one direct reading per
-     regex (as in Proofs/C10stmtGaps.v); label additionally needs "the name is not a keyword" (`else :` is KElse, `if  :` is an
-     if with the expression ` `), for has the optional index group, function begin a star over a group, include a
-     backtracking star over an alternation;
+   * function begin: the pieces theorem C10_ws_fn_begin_pieces (round 7) gives the argument list as the model's re_split of
+     the captured argument text at `\s*,\s*`; that this split is the list of the argument names is computed on examples,
+     not proved for every list; function begin, include '...' and the label are stated by their pieces only (they are
+     not constructors of stmt_spaced3: no expression in them — the label is);
    * C10_ws_statement_gaps_partial has the premise "the expression text parses" (it yields that BOTH layouts classify as
      the same kind) rather than "the first layout classifies successfully"; rejected lines are not related (their error
      record quotes the line, so it differs by construction; that the message and the column relative to the first token
